@@ -8,6 +8,7 @@ import (
 	"fmt"
 	"io"
 	"math/big"
+	"strings"
 	"sync"
 	"testing"
 
@@ -25,9 +26,10 @@ type c10Case struct {
 	Kind      string `json:"kind"` // multi | ipa
 	Base      string `json:"base"` // valid | uniform
 	Seed      uint64 `json:"seed"`
-	Field     int    `json:"field"`          // field to replace (-1 none); points first, the scalar last
-	Repl      string `json:"repl,omitempty"` // replacement class
-	LenMode   string `json:"len,omitempty"`  // "", trunc, extend
+	Field     int    `json:"field"`            // field to replace (-1 none); points first, the scalar last
+	Repl      string `json:"repl,omitempty"`   // replacement class
+	Field2    int    `json:"field2,omitempty"` // 1 + index of a SECOND field receiving the same replacement class (0: none)
+	LenMode   string `json:"len,omitempty"`    // "", trunc, extend
 	LenArg    int    `json:"len_arg,omitempty"`
 	Reader    string `json:"reader"` // whole | onebyte | chunks | dataeof | errat
 	Chunk     int    `json:"chunk,omitempty"`
@@ -81,16 +83,15 @@ func (c c10Case) bytesOf() []byte {
 		}
 		b = append(b, ref.LE32(hx.ExpandFr(c.Seed, "c10sc", 0))...)
 	}
-	if c.Field >= 0 && c.Field <= np {
-		f := c.Field
+	replace := func(f int, seed uint64) {
 		var repl []byte
 		if f < np {
 			x := new(big.Int).SetBytes(b[32*f : 32*f+32])
 			switch c.Repl {
 			case "offcurve":
-				repl = be32any(findX(c.Seed, false, false))
+				repl = be32any(findX(seed, false, false))
 			case "nonsubgroup":
-				repl = be32any(findX(c.Seed, true, false))
+				repl = be32any(findX(seed, true, false))
 			case "alias_x+p":
 				repl = be32any(new(big.Int).Add(new(big.Int).Mod(x, ref.P), ref.P))
 			case "p":
@@ -105,7 +106,7 @@ func (c c10Case) bytesOf() []byte {
 				repl = be32any(new(big.Int).Sub(ref.P, big.NewInt(1)))
 			default: // bitflip
 				repl = append([]byte(nil), b[32*f:32*f+32]...)
-				repl[int(c.Seed%32)] ^= 1 << (c.Seed / 32 % 8)
+				repl[int(seed%32)] ^= 1 << (seed / 32 % 8)
 			}
 		} else {
 			var v *big.Int
@@ -125,11 +126,21 @@ func (c c10Case) bytesOf() []byte {
 			case "r+2^119":
 				v = new(big.Int).Add(ref.R, new(big.Int).Lsh(big.NewInt(1), 119))
 			default:
-				v = ref.P
+				if strings.HasPrefix(c.Repl, "q:") && len(c.Repl) == 6 { // limbs relative to the limbs of r (see qLimbValue)
+					v = qLimbValue([]int{int(c.Repl[2] - '0'), int(c.Repl[3] - '0'), int(c.Repl[4] - '0'), int(c.Repl[5] - '0')}, seed)
+				} else {
+					v = ref.P
+				}
 			}
 			repl = ref.LE32(v)
 		}
 		copy(b[32*f:], repl)
+	}
+	if c.Field >= 0 && c.Field <= np {
+		replace(c.Field, c.Seed)
+	}
+	if c.Field2 > 0 && c.Field2-1 <= np && c.Field2-1 != c.Field {
+		replace(c.Field2-1, c.Seed+uint64(c.Field2)) // same class, (usually) a different value
 	}
 	switch c.LenMode {
 	case "trunc":
@@ -453,6 +464,12 @@ func genC10(t *rapid.T) c10Case {
 			c.Repl = rapid.SampledFrom(c10PointRepl).Draw(t, "repl")
 		} else {
 			c.Repl = rapid.SampledFrom(c10ScalarRepl).Draw(t, "repl_s")
+			if rapid.Bool().Draw(t, "repl_q") {
+				c.Repl = fmt.Sprintf("q:%d%d%d%d", rapid.IntRange(0, 4).Draw(t, "q0"), rapid.IntRange(0, 4).Draw(t, "q1"), rapid.IntRange(0, 4).Draw(t, "q2"), rapid.IntRange(0, 2).Draw(t, "q3"))
+			}
+		}
+		if c.Field < np && rapid.IntRange(0, 2).Draw(t, "two_fields") == 0 { // the same defect class in two fields at once
+			c.Field2 = 1 + rapid.IntRange(0, np-1).Draw(t, "field2")
 		}
 	case 2:
 		c.LenMode = "trunc"
@@ -501,9 +518,25 @@ func TestC10(t *testing.T) {
 					c10Part.EvalCase(s, c10Case{Kind: kind, Base: "valid", Seed: seed, Field: f, Repl: r, Reader: []string{"whole", "dataeof", "onebyte"}[u%3], WriteAt: -1})
 				}
 			}
+			if f < np { // the same invalid class in two fields at once (an even number of bad points, both in L, both in R, across)
+				for _, g := range []int{(f + 1) % np, (f + 8) % np, (f + 3) % np} {
+					for _, r := range []string{"nonsubgroup", "offcurve", "alias_x+p"} {
+						u++
+						if hx.Sharded(u) {
+							c10Part.EvalCase(s, c10Case{Kind: kind, Base: "valid", Seed: seed + uint64(g), Field: f, Field2: 1 + g, Repl: r, Reader: "whole", WriteAt: -1})
+						}
+					}
+				}
+			}
 			if hx.Sharded(f) {
 				c10Part.EvalCase(s, c10Case{Kind: kind, Base: "valid", Seed: seed, Field: -1, Reader: "whole", WriteAt: f})
 				c10Part.EvalCase(s, c10Case{Kind: kind, Base: "valid", Seed: seed, Field: -1, Reader: "whole", WriteAt: f, WriteFull: true})
+			}
+		}
+		for q := 0; q < 81; q++ { // the final scalar with every limb one below / equal to / one above the limb of r
+			u++
+			if hx.Sharded(u) {
+				c10Part.EvalCase(s, c10Case{Kind: kind, Base: "valid", Seed: seed, Field: np, Repl: fmt.Sprintf("q:%d%d%d%d", q%3, q/3%3, q/9%3, q/27), Reader: "whole", WriteAt: -1})
 			}
 		}
 		for k := 0; k <= 32*(np+1)+1; k++ {
